@@ -195,10 +195,11 @@ def kvn2dict(string):
         key = key.strip()
         value = value.strip()
 
-        if "[" in value:
-            # There is a unit field
-            value, sep, unit = value.partition("[")
-            attrib = {"units": unit.rstrip("]")}
+        m = re.match(r"^([-+]?[0-9.]+(?:[eE][-+]?[0-9]+)?)\s*\[(.*)\]$", value)
+        if m:
+            # There is a unit field, which may only follow a numerical value
+            value, unit = m.groups()
+            attrib = {"units": unit}
         else:
             attrib = {}
 
